@@ -266,6 +266,10 @@ class CallMixin:
                 for k in range(len(items) - 2, -1, -1):
                     res = self.ite(i == k, items[k], res)
                 return res
+        if obj.pt == "dict" and obj.py and obj.py[0] == "defaultdict":
+            k = self.box(idx)
+            dflt = {"int": v.I2V(z3.IntVal(0)), "set": v.sempty, "list": v.snil}[obj.py[1]]
+            return self.with_sort(z3.If(v.dhas(obj.t, k), v.dget(obj.t, k), dflt), {"int": "int", "set": "set", "list": "list"}[obj.py[1]])
         if obj.pt == "dict":
             k = self.box(idx)
             self.may_raise(st, fr, "KeyError", v.dhas(obj.t, k), node, "getitem")
